@@ -425,6 +425,26 @@ func c17TLS(w *World, r *Report) {
 	if len(strong) == 0 {
 		ob.Violate("clientauth-never-required", sc.Pos(), "ServerConfig never requires and verifies client certificates")
 	}
+	// the server's session tickets are its own: with ticket keys that several endpoints share
+	// (derived from the key file) a client accepted by one endpoint resumes its session on another,
+	// and crypto/tls runs neither VerifyPeerCertificate nor the client-CA check on a resumed session
+	for _, f := range []*ssa.Function{sc, w.Func("security", "TLSInfo.baseConfig")} {
+		if f == nil {
+			continue
+		}
+		for _, g := range withClosures(f) {
+			eachInstr(g, func(in ssa.Instruction) {
+				if c := callOf(in); c != nil && strings.HasSuffix(CalleeName(c), "tls.Config).SetSessionTicketKeys") {
+					ob.Violate("shared-session-tickets", in.Pos(), FnName(g)+" installs session ticket keys: endpoints that share them (API and replication, two nodes with one certificate) resume each other's sessions without re-checking the client certificate against their own CA and allowed name")
+				}
+				if st, ok := in.(*ssa.Store); ok {
+					if fa, ok := st.Addr.(*ssa.FieldAddr); ok && typeIs(deref(fa.X.Type()), "crypto/tls", "Config") && fieldAddrName(fa) == "SessionTicketKey" {
+						ob.Violate("shared-session-tickets", in.Pos(), FnName(g)+" sets a fixed session ticket key")
+					}
+				}
+			})
+		}
+	}
 	// the pool handed out for the CA files is never nil: a nil ClientCAs makes crypto/tls verify
 	// client certificates against the host's system roots
 	if np := w.Func("security", "NewCertPool"); np != nil {
@@ -819,9 +839,14 @@ func c17TLS(w *World, r *Report) {
 			raw := vpcFn.Params[0]
 			if raw.Referrers() != nil {
 				for _, ref := range *raw.Referrers() {
-					if _, isDbg := ref.(*ssa.DebugRef); !isDbg {
-						ob.Violate("verifies-raw-certs", ref.Pos(), "the peer verification inspects the raw (unverified) certificates")
+					if _, isDbg := ref.(*ssa.DebugRef); isDbg {
+						continue
 					}
+					// counting them (for a log line) looks at none of them
+					if c, isCall := ref.(*ssa.Call); isCall && CalleeName(&c.Call) == "builtin.len" {
+						continue
+					}
+					ob.Violate("verifies-raw-certs", ref.Pos(), "the peer verification inspects the raw (unverified) certificates")
 				}
 			}
 			eachInstr(vpcFn, func(in ssa.Instruction) {
